@@ -4,7 +4,8 @@ FILE = 'scales/sink.py'
 CLASSES = {
   'MessageSink': dict(path='MessageSink', bases=[], fields={'_next': 'Channel?'}),
   'ClientMessageSink': dict(path='ClientMessageSink', bases=['MessageSink'], fields={'_on_faulted': 'Observable'}),
-  'Observable': dict(extern=True, path=None, fields={'value': 'any'}, bases=[]),
+  # ghost g_nsubs: how many callbacks are currently subscribed (Subscribe +1, Unsubscribe -1)
+  'Observable': dict(extern=True, path=None, fields={'value': 'any', 'g_nsubs': 'int'}, ghost=['g_nsubs'], bases=[]),
   'Callable0': dict(extern=True, path=None, fields={'g_calls': 'int'}, ghost=['g_calls'], bases=[]),
   'RefCountedSink': dict(path='RefCountedSink', bases=['ClientMessageSink'], fields={
     '_ref_count': 'int', '_open_ar': 'AsyncResult?', '_open_lock': 'any',
@@ -229,9 +230,12 @@ EXTERNS = {
   'Observable.Set': dict(params=[('value', 'any')], modifies=['Observable.value'], allocates=True,
                          ensures=['self.value == value', 'forall_ref(o, Observable, implies(o != self, o.value == old(o.value)), o.value)'],
                          notes='sets the value and spawns the notification greenlet (callbacks run later)'),
-  'Observable.Subscribe': dict(params=[('callback', 'any'), ('one_shot', 'bool')], requires=['callback is not None'],
+  'Observable.Subscribe': dict(params=[('callback', 'any'), ('one_shot', 'bool')], requires=['callback is not None'], modifies=['Observable.g_nsubs'],
+                               ensures=['self.g_nsubs == old(self.g_nsubs) + 1', 'forall_ref(o, Observable, implies(o != self, o.g_nsubs == old(o.g_nsubs)), o.g_nsubs)'],
                                notes='registers a callback; one-shot callbacks are delivered at most once (assumed)'),
-  'Observable.Unsubscribe': dict(params=[('callback', 'any')]),
+  'Observable.Unsubscribe': dict(params=[('callback', 'any')], modifies=['Observable.g_nsubs'],
+                                 ensures=['self.g_nsubs == old(self.g_nsubs) - 1', 'forall_ref(o, Observable, implies(o != self, o.g_nsubs == old(o.g_nsubs)), o.g_nsubs)'],
+                                 notes='removes the callback from this observable only'),
   'time.time': dict(params=[], returns='real', ensures=['result > 0'],
                     notes='wall clock; monotonicity is stated where a proof needs it'),
 }
